@@ -383,6 +383,24 @@ impl Inscription {
   }
 }
 
+#[cfg(feature = "verif")]
+impl Inscription {
+  pub fn verif_encode_properties(
+    compress: bool,
+    properties: &Properties,
+  ) -> Result<(Option<Vec<u8>>, Option<Vec<u8>>)> {
+    Self::encode_properties(compress, properties)
+  }
+
+  pub fn verif_properties(&self) -> Properties {
+    self.properties()
+  }
+
+  pub fn verif_properties_cbor(&self) -> Option<Vec<u8>> {
+    self.properties_cbor().map(|cbor| cbor.into_owned())
+  }
+}
+
 #[cfg(test)]
 mod tests {
   use {super::*, std::io::Write};
